@@ -11,11 +11,37 @@ import (
 	"github.com/tetratelabs/wazero/internal/wasm"
 )
 
+// checkVectorSize returns an error if a vector is declared to have more elements than there are
+// bytes left to decode. Every element takes at least one byte, so such a vector can never be
+// decoded, and checking first avoids allocating memory for it based on the declared size alone.
+func checkVectorSize(r *bytes.Reader, size uint32) error {
+	if uint64(size) > uint64(r.Len()) {
+		return fmt.Errorf("vector size %d exceeds the remaining %d bytes", size, r.Len())
+	}
+	return nil
+}
+
+// checkRemaining returns the error io.ReadFull would return, without allocating the buffer
+// first, when size bytes are about to be read but fewer remain.
+func checkRemaining(r *bytes.Reader, size uint64) error {
+	if size > uint64(r.Len()) {
+		if r.Len() == 0 {
+			return io.EOF
+		}
+		return io.ErrUnexpectedEOF
+	}
+	return nil
+}
+
 func decodeValueTypes(r *bytes.Reader, num uint32) ([]wasm.ValueType, error) {
 	if num == 0 {
 		return nil, nil
 	}
 
+	// Do not allocate for a declared size that the remaining input cannot hold.
+	if err := checkRemaining(r, uint64(num)); err != nil {
+		return nil, err
+	}
 	ret := make([]wasm.ValueType, num)
 	_, err := io.ReadFull(r, ret)
 	if err != nil {
@@ -45,6 +71,10 @@ func decodeUTF8(r *bytes.Reader, contextFormat string, contextArgs ...interface{
 		return "", uint32(sizeOfSize), nil
 	}
 
+	// Do not allocate for a declared size that the remaining input cannot hold.
+	if err = checkRemaining(r, uint64(size)); err != nil {
+		return "", 0, fmt.Errorf("failed to read %s: %w", fmt.Sprintf(contextFormat, contextArgs...), err)
+	}
 	buf := make([]byte, size)
 	if _, err = io.ReadFull(r, buf); err != nil {
 		return "", 0, fmt.Errorf("failed to read %s: %w", fmt.Sprintf(contextFormat, contextArgs...), err)
